@@ -2,6 +2,7 @@ package transport
 
 import (
 	"encoding/json"
+	"errors"
 	"fmt"
 	"io"
 
@@ -9,6 +10,19 @@ import (
 
 	"github.com/99designs/gqlgen/graphql"
 )
+
+// jsonDecodeParams decodes a request envelope into *params. The JSON value null would leave
+// *params nil (and every later use would dereference nil), so it is reported as a decode error.
+func jsonDecodeParams(r io.Reader, params **graphql.RawParams) error {
+	if err := jsonDecode(r, params); err != nil {
+		return err
+	}
+	if *params == nil {
+		*params = &graphql.RawParams{}
+		return errors.New("request must be a JSON object, got null")
+	}
+	return nil
+}
 
 func writeJson(w io.Writer, response *graphql.Response) {
 	b, err := json.Marshal(response)
